@@ -56,7 +56,8 @@ def _single_atom(c: Chooser, v, streams: List):
         return ["cmp", c.pick(["==", "!="]), ["attr", v, "ref"], ["item", 0]]
     if kind == "in_stream":
         streams.append([c.int(0, 3) for _ in range(c.int(1, 4))])
-        return ["in", ["attr", v, "a"], ["stream", len(streams) - 1]]
+        # the one-shot stream in literal position comes in several flavours (generator, iterator object, map, chain)
+        return ["in", ["attr", v, "a"], ["stream", len(streams) - 1, c.weighted([("gen", 3), ("iter", 2), ("map", 2), ("chain", 1)])]]
     raise AssertionError(kind)
 
 
@@ -82,7 +83,8 @@ def generate(rng, cfg: Dict) -> Dict:
     mode = c.weighted([("single", 4), ("multi", 4), ("general", 4), ("endless", 2), ("pattern", 2), ("forall", 1.5)])
     sc: Dict = {"property": "C10", "machine": "eval_sim", "mode": mode, "salt": c.int(0, 1 << 30), "shared": [], "streams": []}
     if mode == "general":
-        g = eval_gen.Gen(rng, dict(cfg, shared_p=0.0, rule_p=0.35))
+        # (early_p=0: an evaluation before the rules are attached would pull from the streams the laziness rules count)
+        g = eval_gen.Gen(rng, dict(cfg, shared_p=0.0, rule_p=0.35, early_p=0.0))
         g.world()
         g.sc["shared"] = []
         # every variable gets its own stream so that nothing is shared between evaluations
